@@ -119,7 +119,8 @@ def r_size_table(ctx):
             n_sites += 1
             v = _const_receiver(prog, b, t["args"][0])
             rep.instance("%s calls %s on %s" % (b.key, nm.split("::")[-1], v))
-            rep.oblige(v in (1, 2, 4, 8), "SIZE-TABLE|raw-encoder-site|%s|%s" % (b.key, v), b.span,
+            vs_ = v if isinstance(v, tuple) else (v,)
+            rep.oblige(all(x in (1, 2, 4, 8) for x in vs_), "SIZE-TABLE|raw-encoder-site|%s|%s" % (b.key, v), b.span,
                        "%s encodes a size with %s directly (receiver %s): known sizes must go through size_as_vint / size_as_vint_with_length" % (b.key, nm, v))
     helper_calls = 0
     for b in writer_bodies_list(prog):
@@ -132,7 +133,7 @@ def r_size_table(ctx):
     return rep
 
 
-def _const_receiver(prog, body, op):
+def _const_receiver(prog, body, op, _depth=0):
     """value of a constant receiver (&1u8 etc.), or a description"""
     if op.get("k") == "const":
         if "v" in op:
@@ -152,7 +153,7 @@ def _const_receiver(prog, body, op):
                 if st["k"] == "assign" and st["place"]["local"] == l and not st["place"]["proj"]:
                     rv = st["rv"]
                     if rv["k"] == "use":
-                        return _const_receiver(prog, body, rv["op"])
+                        return _const_receiver(prog, body, rv["op"], _depth)
                     if rv["k"] == "ref" and (not rv["place"]["proj"] or all(e["k"] == "deref" for e in rv["place"]["proj"])):
                         nxt = rv["place"]["local"]
                     elif rv["k"] == "ref":
@@ -160,6 +161,15 @@ def _const_receiver(prog, body, op):
             if nxt is None:
                 break
             l = nxt
+        # a parameter of a private helper: the value every caller passes (all callers must agree on a constant of the allowed set)
+        if 1 <= l <= body.arg_count and _depth < 3:
+            vals = set()
+            callers = prog.callers_of(body.path)
+            for cb, cbb, ct in callers:
+                if l - 1 < len(ct["args"]):
+                    vals.add(_const_receiver(prog, cb, ct["args"][l - 1], _depth + 1))
+            if callers and len(vals) >= 1 and all(isinstance(v, int) for v in vals):
+                return tuple(sorted(vals)) if len(vals) > 1 else next(iter(vals))
         return "variable"
     return "?"
 
